@@ -14,7 +14,9 @@ Record input := {
   i_spec : spec;
   i_int : list (str * Z);        (* CPython's int() on the candidate retry values of this stream *)
   i_int_fail : list str;         (* ASCII candidates on which int() raised ValueError *)
-  i_json : list (str * N)        (* CPython's json.loads on the candidate NDJSON lines: id of the canonical dump *)
+  i_json : list (str * N);       (* CPython's json.loads on the candidate NDJSON lines: id of the canonical dump *)
+  i_h_sse : helper;              (* helper the generated text/event-stream operation calls (read off the generated code) *)
+  i_h_nd : helper                (* helper the generated application/x-ndjson operation calls *)
 }.
 
 Record obs := {
@@ -26,9 +28,8 @@ Record obs := {
   o_tev : list str;              (* iter_sse_events_text *)
   o_nd : list N * bool;          (* iter_ndjson: items (ids), raised? *)
   (* END-TO-END, through a generated client (server = MockTransport with the same async chunk iterator):
-     items of the text/event-stream operation, of the application/x-ndjson operation (both generated as
-     `async for chunk in iter_sse_events_text(response): yield json.loads(chunk)`), and of the octet-stream operation
-     (`async for chunk in iter_bytes(response)`).  None = this case was not driven end to end. *)
+     items of the text/event-stream operation, of the application/x-ndjson operation (each through the helper named in
+     i_h_sse / i_h_nd) and of the octet-stream operation (`async for chunk in iter_bytes(response)`).  None = this case was not driven end to end. *)
   o_e2e : option ((list N * bool) * (list N * bool) * list bytes)
 }.
 
@@ -50,7 +51,7 @@ Definition model_one (i : input) (cs : list bytes) : obs :=
   {| o_bad := negb (utf8_wf (concat cs)); o_bytes := iter_bytes cs; o_texts := aiter_text cs;
      o_lines := aiter_lines cs; o_sse := iter_sse pi cs; o_tev := iter_sse_events_text pi cs;
      o_nd := iter_ndjson N js cs;
-     o_e2e := Some (e2e_events pi N js cs, e2e_events pi N js cs, e2e_bytes cs) |}.
+     o_e2e := Some (e2e_items pi N js (i_h_sse i) cs, e2e_items pi N js (i_h_nd i) cs, e2e_bytes cs) |}.
 
 Definition model_obs (i : input) : list obs := map (model_one i) (i_chunkings i).
 
